@@ -6,6 +6,7 @@ random-access request API, `readRequest true` the streaming one (with the two-by
 peek done by `io.ReadFull`; `readRequest false` is the pre-repair single `Read`).
 -/
 import ThriftVerif.Wire.EnvelopeProofs
+import ThriftVerif.Proto.Mux
 
 namespace ThriftVerif.Properties.C12
 open ThriftVerif.Wire
@@ -70,5 +71,27 @@ theorem single_read_peek_breaks_agreement :
 /-- Non-vacuity: a concrete envelope with a non-UTF8 multiplexed-style name meets `EnvOK`. -/
 example : EnvOK ⟨[0x53, 0x3a, 0xff, 0x00], 1, 0x80000000, .struct [(1, .bool true)]⟩ :=
   ⟨rfl, by decide, by decide, by decide⟩
+
+/-! ### ':'-multiplexed names (internal/multiplex) -/
+
+/-- A multiplexing client for service `svc` (no colon in it) sends `svc:method`; the multiplexing handler
+cuts at the first colon: the service is handed exactly the method — any bytes, further colons included. -/
+theorem multiplexed_method_intact (svc m : Bytes) (h : (0x3a : UInt8) ∉ svc) :
+    ThriftVerif.Proto.splitColon (ThriftVerif.Proto.muxName svc m) = some (svc, m) :=
+  ThriftVerif.Proto.splitColon_mux svc m h
+
+/-- A name is refused as not multiplexed exactly when it has no colon at all. -/
+theorem unmultiplexed_iff_no_colon (n : Bytes) :
+    ThriftVerif.Proto.splitColon n = none ↔ (0x3a : UInt8) ∉ n :=
+  ThriftVerif.Proto.splitColon_none_iff n
+
+/-- The cut is at the FIRST colon: the two parts put the name back together and the service part has none. -/
+theorem multiplex_cut_at_first_colon (n svc m : Bytes) (h : ThriftVerif.Proto.splitColon n = some (svc, m)) :
+    n = ThriftVerif.Proto.muxName svc m ∧ (0x3a : UInt8) ∉ svc :=
+  ThriftVerif.Proto.splitColon_some n svc m h
+
+/-- Non-vacuity: `Svc:a:b\xff` reaches service `Svc` as method `a:b\xff`. -/
+example : ThriftVerif.Proto.splitColon [0x53, 0x76, 0x63, 0x3a, 0x61, 0x3a, 0x62, 0xff] =
+    some ([0x53, 0x76, 0x63], [0x61, 0x3a, 0x62, 0xff]) := by decide
 
 end ThriftVerif.Properties.C12
